@@ -10,9 +10,9 @@ import (
 
 func init() {
 	register(&Rule{
-		ID: "C22",
+		ID:      "C22",
 		Explain: "Decides keyring persistence as a sibling rule over the three key-modifying query handlers: from the keyring mutator's nil result, Result=true is unreachable once the calls of the keyring-file writer and the edges establishing 'no keyring file configured' are cut (with a file configured, success implies a write); Result=true is stored only behind the mutator's and the writer's nil results; every failure edge (undecodable request, encryption disabled, mutator error) reaches the reply without a write and without touching the keyring; the file writer is called from nowhere else; writer and loader agree on the codec (JSON array of base64.StdEncoding strings, in keyring order, element 0 loaded as primary — memberlist keeps the primary key at index 0).",
-		Run: runC22,
+		Run:     runC22,
 		Mutants: []Mutant{
 			{Name: "rename-locals", Equivalent: true, Regexp: true, File: "serf/internal_query.go", Func: "func (s *serfQueries) handleInstallKey(", Old: `\b(req|response|keyring)\b`, New: "${1}Renamed"},
 			{Name: "use-key-not-persisted", File: "serf/internal_query.go", Func: "func (s *serfQueries) handleUseKey(", Old: "\tif err := s.serf.writeKeyringFile(); err != nil {\n\t\tresponse.Message = err.Error()\n\t\ts.logger.Printf(\"[ERR] serf: Failed to write keyring file: %s\", err)\n\t\tgoto SEND\n\t}\n", New: "", Expect: "R1"},
@@ -25,9 +25,9 @@ func init() {
 		},
 	})
 	register(&Rule{
-		ID: "C23",
+		ID:      "C23",
 		Explain: "Decides the aggregation and reply-size clauses structurally: in the reply reader the reply counter is incremented before anything else for each reply, the failure counter is incremented on exactly the three failure edges (bad/missing type byte, undecodable, Result false) and key counters only on the decoded path; the operation returns a non-nil error exactly on NumErr != 0 or NumResp != NumNodes once the query ran; the list reply that is returned is the very buffer for which checkResponseSize returned nil, the key list is only ever re-sliced to a prefix [0:i] with the message naming (i, actual) of the same iteration, and the send path re-checks the size. That one key always fits is not covered.",
-		Run: runC23,
+		Run:     runC23,
 		Mutants: []Mutant{
 			{Name: "rename-locals", Equivalent: true, Regexp: true, File: "serf/keymanager.go", Func: "func (k *KeyManager) streamKeyResp(", Old: `\b(nodeResponse|r)\b`, New: "${1}Renamed"},
 			{Name: "undecodable-not-counted", File: "serf/keymanager.go", Func: "func (k *KeyManager) streamKeyResp(", Old: "\t\t\t\t\"Failed to decode key query response: %v\", r.Payload)\n\t\t\tresp.NumErr++\n", New: "\t\t\t\t\"Failed to decode key query response: %v\", r.Payload)\n", Expect: "R1"},
